@@ -22,7 +22,9 @@ def _short(x, n=300):
 
 
 def case_id(name, case):
-    return '%s:%s' % (name, _short(case, 160))
+    import hashlib
+    full = json.dumps(case, sort_keys=True, default=str)
+    return '%s:%s#%s' % (name, _short(case, 120), hashlib.sha256(full.encode()).hexdigest()[:8])
 
 
 def run_case(mod, name, case):
@@ -60,7 +62,7 @@ def main(mod):
     per_check = {}
     for item in mod.generate(a.tier, rng):
         name, case = item[0], item[1]
-        key = item[2] if len(item) > 2 else _short(case, 200)
+        key = item[2] if len(item) > 2 else __import__('hashlib').sha256(json.dumps(case, sort_keys=True, default=str).encode()).hexdigest()
         n += 1
         per_check[name] = per_check.get(name, 0) + 1
         if key is not None:
